@@ -3,6 +3,7 @@ mod api;
 mod engine;
 mod misc;
 mod more;
+mod parsetie;
 mod spell;
 
 #[global_allocator]
@@ -50,6 +51,7 @@ fn main() {
         "c18" => more::run_c18(&cfg),
         "c19" => spell::run_c19(&cfg),
         "parsetree" => spell::run_parsetree(&cfg),
+        "parsetie" => parsetie::run(&cfg),
         "list" => {
             for p in engine::patterns(&cfg.space, &cfg.tier, cfg.seed) {
                 println!("{}", p);
